@@ -20,6 +20,7 @@ def outcomes(P, q, gen):
     fi = P.functions.get(q)
     if fi is None:
         return None
+    SD.P_HOLDER[:] = [P]
     out = []
     seen = set()
     for item in gen(P):
